@@ -10,7 +10,7 @@ PROP = {'id': 'C08',
                'RAgg.move_results',
                'RAgg._process_results',
                'RAgg.process_results'],
- 'native': ['RAgg._process_results', 'RAgg._move_results'],
+ 'native': ['RAgg._process_results', 'RAgg._move_results', 'RAgg.move_results'],
  'lemmas': ['lemma_c08_exactly_once'],
  'records': ['RAgg'],
  'min_obligations': 100,
